@@ -476,6 +476,25 @@ class C18:
             cls = rng.choice([0, 1])
             lines, clean, bad = noisy_file(rng, kind, delim, bool(cls))
             yield {"kind": "noise", "rk": kind, "cls": cls, "delim": delim, "text": lines, "clean": clean, "bad": bad, "src": "rand-noise"}
+            if i % 5 == 1 and delim in (None, ",", ";"):
+                # the same file with a comment marker and a delimiter of several characters (model: TextMulti.lean, C18S_*)
+                M, D = [("//", "::"), ("--", "::"), ("#!", "->"), ("%%", ", "), ("//", None), ("--", None), ("", "::"), ("//", "")][(i // 5) % 8]
+                if delim is None:
+                    D = None
+                elif D is None:
+                    D = "::"                  # a text written with a delimiter is read with one
+                if M == "":
+                    # an empty marker is found at position 0 of every line: nothing is read
+                    c2, b2 = [], False
+                elif D == "":
+                    c2, b2 = None, False      # empty separator: ValueError at the first line that is split
+                else:
+                    c2, b2 = clean, bad
+                t2 = [l.replace("#", M) if M else l for l in lines]
+                if delim is not None and D is not None:
+                    t2 = [l.replace(delim, D) for l in t2]
+                yield {"kind": "noise", "rk": kind, "cls": cls, "delim": delim, "multi": [M, D], "text": t2, "clean": c2, "bad": b2,
+                       "src": "rand-noise-multichar"}
         for i in range(n // 2):
             kind = i % 2
             cls = rng.choice([0, 1])
@@ -514,7 +533,12 @@ class C18:
             enc = " ".join(enc.split())
             d = "-" if case["delim"] is None else str(ord(case["delim"]))
             L = [("ptxt %d 0 %d %s 35 %d %s" % (case["rk"], case["cls"], d, len(case["text"]), enc)).rstrip(), "dump 0"]
-            rows = case["clean"]
+            if case.get("multi"):
+                M, D = case["multi"]
+                dd = "-" if D is None else ("%d %s" % (len(D), " ".join(str(ord(ch)) for ch in D))).rstrip()
+                mm = ("%d %s" % (len(M), " ".join(str(ord(ch)) for ch in M))).rstrip()
+                L = [("ptxts %d 0 %d %s %s %d %s" % (case["rk"], case["cls"], dd, mm, len(case["text"]), enc)).rstrip(), "dump 0"]
+            rows = case["clean"] or []
             if case["rk"] == 0:
                 flat = " ".join("%d %s" % (len(r), " ".join(map(str, r))) for r in rows)
                 L.append(("rsnap 1 %d %d %s" % (case["cls"], len(rows), flat)).rstrip())
@@ -560,6 +584,9 @@ class C18:
             return [] if got == exp else [F("C18.compaction", input=case["ts"], expected=exp, got=got)]
         if case["kind"] == "noise":
             r, d0, r1, d1 = outs
+            if case.get("multi") and case["clean"] is None:
+                # an empty separator is rejected as soon as a line reaches the split (or nothing is split at all)
+                return [] if r in ("E:VE", "ok") else [F("C18.empty_separator", text=case["text"], got=r)]
             if case["bad"]:
                 return [] if r == "E:TypeError" else [F("C18.conversion", text=case["text"], expected="E:TypeError", got=r)]
             if r1 != "ok":
